@@ -1751,6 +1751,11 @@ class SpaceUpdater(SharedSpaceOperations):
         if not prefix and not is_valid_name(name):
             raise ValueError("Invalid name '%s'." % name)
 
+        if refs is not None:
+            for refname in refs:
+                if not is_valid_name(refname):
+                    raise ValueError("Invalid name '%s'." % refname)
+
         if bases is None:
             bases = []
         elif isinstance(bases, UserSpaceImpl):
@@ -1777,7 +1782,7 @@ class SpaceUpdater(SharedSpaceOperations):
             raise ValueError("cyclic inheritance")
 
         mro = self._graph.get_mro(node)  # Check if MRO is possible
-        self._check_name_conflict(mro)
+        self._check_name_conflict(mro, refs=refs)
 
         # Check if MRO is possible for each node in sub graph
         for n in nx.descendants(self._graph, node):
@@ -1812,13 +1817,17 @@ class SpaceUpdater(SharedSpaceOperations):
 
         self._update_manager()
 
+        if refs is not None:
+            self.model.refmgr.add_refs(space.own_refs[k] for k in refs)
+
         return space
 
-    def _check_name_conflict(self, mro, node=None):
+    def _check_name_conflict(self, mro, node=None, refs=None):
         """Check name conflict between spaces, cells, refs
 
         Cells and references are inherited from the spaces in ``mro``,
-        child spaces are not.
+        child spaces are not. ``refs`` are the names of the references
+        a space is going to be created with.
         """
         members = {}
         for attr in ["cells", "own_refs"]:
@@ -1828,6 +1837,8 @@ class SpaceUpdater(SharedSpaceOperations):
                     space = self._graph.to_space(sname)
                     namechain.append(set(getattr(space, attr).keys()))
             members[attr] = set().union(*namechain)
+        if refs is not None:
+            members["own_refs"].update(refs)
         if node is not None and "space" in self._graph.nodes[node]:
             members["spaces"] = set(
                 self._graph.to_space(node).named_spaces.keys())
@@ -2060,6 +2071,13 @@ class ReferenceManager:
             refs = self._valid_to_refs.setdefault(id(value), [])
             assert all(ref is not r for r in refs)
             refs.append(ref)
+
+    def add_refs(self, refs):
+        """Register the references a space was created with"""
+        for ref in refs:
+            if not isinstance(ref.interface, Interface):
+                self._valid_to_refs.setdefault(
+                    id(ref.interface), []).append(ref)
 
     def del_ref(self, impl, name):
 
